@@ -608,6 +608,12 @@ class FakeSocket:
         if not self.closed:
             _W().obs("close", self.sid, self.linger0)
         self.closed = True
+        # connections still waiting in the backlog of a listener are reset by the OS when it closes
+        while self.backlog:
+            c = self.backlog.popleft()
+            if not c.closed:
+                _W().obs("close", c.sid, False)
+                c.closed = True
 
     # ---- readiness as seen by select
     def readable(self):
